@@ -4,6 +4,7 @@ from . import mir
 from .mir import op_place, is_plain_local
 
 MAX_DEPTH = 40
+TAGGED_GUARDS = True
 
 # Calls that return (a view of / a copy of) their first argument: looked through by peel().
 TRANSPARENT = (
@@ -360,6 +361,12 @@ def simplify(e):
                 return base[1][int(e[2])]
             except (ValueError, IndexError):
                 pass
+        if base[0] == "closure":
+            # a captured variable read through the environment of a closure whose body was spliced into this function
+            try:
+                return base[2][int(e[2])]
+            except (ValueError, IndexError):
+                pass
         if base[0] == "downcast" and base[1][0] == "agg" and base[1][2] == base[2]:
             for f, v in base[1][3]:
                 if f == e[2]:
@@ -566,7 +573,11 @@ def bool_facts(e, truth, prog):
     if k == "const":
         return [("const", e[2], truth)]
     if k == "phi":
-        # value merges (e.g. `a || b` materialised into a temp): no single fact
+        # a value merge, e.g. `a && b` materialised into a temporary: phi(b | false).  The alternatives that are the
+        # constant !truth cannot be the one taken; if exactly one alternative remains, its facts hold.
+        live = [x for x in e[1] if not (peel_bool(x)[0] == "const" and peel_bool(x)[2] is (not truth))]
+        if len(live) == 1 and len(e[1]) > 1 and peel_bool(live[0])[0] != "const":
+            return bool_facts(live[0], truth, prog) + [("truth", e, truth)]
         return [("truth", e, truth)]
     return [("truth", e, truth)]
 
@@ -695,6 +706,10 @@ class Conds:
         if not edges:
             return False, edges
         ok = site_block not in self.fn.reachable(start, removed_edges=edges)
+        if not ok and TAGGED_GUARDS:
+            # second chance with variant / constant tracking: a test whose outcome is first stored in a bool or an
+            # Option (`let dup = it.any(..)`, normalised combinators, `let r = match ..; r?`) and then branched on
+            ok = site_block not in reachable_tagged(self.fn, start, removed_edges=edges)
         return ok, edges
 
     def facts_on_all_paths(self, site_block):
@@ -1083,6 +1098,76 @@ def return_exprs(fn, res=None):
         if d[2] != "partial" and d[0] in live:
             out.extend((b, e) for b, e in value_sources(fn, res, d) if b in live)
     return out
+
+
+ADDERS = ("Vec::<T, A>::push", "HashSet::<T, S, A>::insert", "HashMap::<K, V, S, A>::insert", "VecDeque::<T, A>::push_back")
+
+
+def fresh_collection_site(e):
+    """(fn key, block) of the `X::new()` / `with_capacity(..)` / `vec![]` call a collection value comes from, or None"""
+    pe = peel(e)
+    if pe[0] == "call" and (pe[1].endswith("::new") or pe[1].endswith("::with_capacity") or pe[1].endswith("::default")):
+        return pe[3]
+    return None
+
+
+def collection_fills(fn, res, e):
+    """[(block, [element exprs])] of the push / insert calls into the freshly created collection `e` (one creation
+    site).  The loop spelling and the `.map(f).collect()` spelling (after normalisation) both end up here."""
+    site = fresh_collection_site(e)
+    if site is None:
+        return None
+    out = []
+    for b, t in fn.calls():
+        n = t.get("callee") or ""
+        if any(n.endswith(a) for a in ADDERS) and b in fn.reachable(0):
+            ce = res.call_expr(t, b)
+            if fresh_collection_site(ce[2][0]) == site:
+                out.append((b, ce[2][1:]))
+    return out
+
+
+def iter_elem_source(e):
+    """for the element of an iteration, `(next(&mut into_iter(X)) as Some).0`, the iterated expression X (refs,
+    `iter()` / `into_iter()` looked through); None for anything else"""
+    pe = peel(e)
+    if pe[0] == "field" and pe[2] == "0" and pe[1][0] == "downcast" and pe[1][2] == "Some":
+        c = peel(pe[1][1])
+        if c[0] == "call" and c[1].endswith("::next") and c[2]:
+            return peel(c[2][0])
+    return None
+
+
+def never_after(fn, edges, block, stop_blocks=()):
+    """once one of `edges` has been taken, `block` is not reached any more (before passing a stop block - e.g. the
+    header of the enclosing loop, to say "in this iteration")"""
+    return bool(edges) and all(block not in reachable_tagged(fn, s, removed_blocks=stop_blocks) for a, s in edges)
+
+
+def innermost_loop_header(fn, block):
+    best = None
+    for h, body in fn.loops():
+        if block in body and (best is None or len(body) < len(best[1])):
+            best = (h, body)
+    return best[0] if best else None
+
+
+def ascending_index_of(e):
+    """if e is a loop index running 0, 1, 2, .. over a collection - the element of `0..coll.len()` or the `.0` of the
+    element of `coll.iter().enumerate()` - return the collection expression, else None"""
+    pe = peel(e)
+    if pe[0] == "field" and pe[2] == "0":
+        inner = peel(pe[1])
+        src = iter_elem_source(inner)
+        if src is not None and src[0] == "call" and src[1].endswith("Iterator::enumerate") and src[2]:
+            return peel(src[2][0])
+    src = iter_elem_source(pe)
+    if src is not None and src[0] == "agg" and src[1] == "std::ops::Range":
+        d = dict(src[3])
+        st, en = peel(d["start"]), peel(d["end"])
+        if st[0] == "const" and st[2] == 0 and en[0] == "call" and en[1].endswith("::len") and en[2]:
+            return peel(en[2][0])
+    return None
 
 
 def vec_tail_appends(fn):
